@@ -178,3 +178,114 @@ def make(rng, n):
         name, text = t(rng)
         out.append((name, PRELUDE + " " + shifter(rng) + " " + " ".join(text.split("\n"))))
     return out
+
+
+# ---------------------------------------------------------------------------------------------------------------
+# round 4: "same library call, different arguments" workloads.  Every instance calls C-backed library procedures of
+# (chibi time) / (chibi system) / (chibi filesystem) / (chibi ast) / (srfi 144) / (srfi 98) / (chibi temp-file) many
+# times with arguments that are SPECIFIC to the instance and reports, per argument, the list of DISTINCT results it
+# saw (alone: exactly one per argument).  State hidden inside the C library (static result buffers of ctime /
+# localtime / getpwuid / strerror / lgamma's signgam ...) or a name space shared through the file system shows as a
+# result that belongs to another instance's argument.  `(c13-barrier)` is interpreted by the harness: all OS threads
+# of the run start their loops together.
+
+DISTINCT = ("(define (distinct f n args) (map (lambda (a) (let lp ((i 0) (seen '())) (if (= i n) (reverse seen) "
+            "(let ((r (guard (e (#t (list 'raised (if (error-object? e) (error-object-message e) e)))) (f a)))) "
+            "(lp (+ i 1) (if (member r seen) seen (cons r seen))))))) args))")
+
+
+def lc_time(rng, k, scale, env):
+    secs = sorted(rng.randrange(0, 2 ** 31 - 1) for _ in range(3))
+    n = 6000 * scale
+    return ("libc-time", """(import (chibi time)) %s
+(define args '(%s))
+(c13-barrier)
+(list (distinct seconds->string %d args) (distinct (lambda (s) (time->string (seconds->time s))) %d args)
+      (distinct (lambda (s) (let ((tm (seconds->time s))) (list (time-year tm) (time-month tm) (time-day tm) (time-hour tm) (time-minute tm) (time->seconds tm)))) %d args))"""
+            % (DISTINCT, " ".join(map(str, secs)), n, n, n))
+
+
+def lc_system(rng, k, scale, env):
+    uids, gids = env["uids"], env["gids"]
+    mine_u = [uids[(k * 3 + j) % len(uids)] for j in range(3)]
+    mine_g = [gids[(k * 3 + j) % len(gids)] for j in range(3)]
+    n = 1500 * scale
+    return ("libc-system", """(import (chibi system)) %s
+(c13-barrier)
+(list (distinct (lambda (u) (let ((i (user-information u))) (list (user-name i) (user-id i) (user-home i) (user-shell i)))) %d '(%s))
+      (distinct (lambda (g) (let ((i (group-information g))) (list (group-name i) (group-id i)))) %d '(%s))
+      (distinct (lambda (x) (string? (get-host-name))) 50 '(0)))"""
+            % (DISTINCT, n, " ".join(map(str, mine_u)), n, " ".join(map(str, mine_g))))
+
+
+def lc_fs(rng, k, scale, env):
+    dirs = env["dirs"]
+    mine = [dirs[(k * 2 + j) % len(dirs)] for j in range(2)]
+    n = 700 * scale
+    return ("libc-filesystem", """(import (chibi filesystem) (srfi 95)) %s
+(c13-barrier)
+(list (distinct (lambda (d) (sort (directory-files d) string<?)) %d '(%s))
+      (distinct (lambda (d) (map (lambda (f) (file-size (string-append d "/" f))) (sort (directory-files d) string<?))) %d '(%s))
+      (distinct (lambda (d) (list (file-directory? d) (file-regular? d) (file-exists? (string-append d "/nope")) (string? (current-directory)))) %d '(%s)))"""
+            % (DISTINCT, n, " ".join('"%s"' % d for d in mine), n // 4, " ".join('"%s"' % d for d in mine), n, " ".join('"%s"' % d for d in mine)))
+
+
+def lc_errno_math_env(rng, k, scale, env):
+    errs = sorted(rng.sample(range(1, 120), 3)) + [100000 + 37 * k, 200000 + k]
+    xs = rng.sample(["-0.5", "-1.5", "-2.5", "-3.5", "0.5", "3.25", "-0.25", "-1.25", "7.5", "-4.75"], 4)
+    names = rng.sample(["PATH", "HOME", "CHIBI_MODULE_PATH", "LD_LIBRARY_PATH", "C13_NOT_SET_%d" % k, "CHIBI_IGNORE_SYSTEM_PATH"], 3)
+    n = 2000 * scale
+    return ("libc-errno-math-env", """(import (only (chibi ast) integer->error-string) (srfi 144) (srfi 98)) %s
+(c13-barrier)
+(list (distinct integer->error-string %d '(%s))
+      (distinct (lambda (x) (call-with-values (lambda () (flloggamma x)) list)) %d '(%s))
+      (distinct get-environment-variable %d '(%s)))"""
+            % (DISTINCT, n, " ".join(map(str, errs)), n, " ".join(xs), n, " ".join('"%s"' % s for s in names)))
+
+
+def lc_tempfile(rng, k, scale, env):
+    """M temporary files and directories from ONE template shared by all instances of the run (the names are derived from the
+    process id and the clock, which independent contexts of one process share): every context must read back its own data"""
+    # kept files of ALL contexts of a run share one candidate sequence (same template, pid, second) and the library gives up
+    # after 100 candidates: keep the total well below that
+    m = max(2, min(6 * scale, 48 // env.get("threads", 6)))
+    ns, nd = 6 * scale, 30 * scale
+    return ("ns-temp-file", """(import (chibi temp-file) (chibi filesystem) (chibi io) (srfi 1))
+(define me "instance-%d-%d")
+(define (slurp path) (guard (e (#t 'unreadable)) (call-with-input-file path (lambda (in) (let ((l (read-line in))) (if (eof-object? l) "" l))))))
+(define (msg e) (if (error-object? e) (error-object-message e) e))
+(define (make-kept j) (guard (e (#t (list 'raised (msg e))))
+  (call-with-temp-file "%s.dat" (lambda (path out preserve) (preserve) (let ((line (string-append me "-" (number->string j)))) (write-string line out) (newline out) (flush-output out)
+     (list path line (slurp path)))))))
+(define (make-scratch j) (guard (e (#t (list 'raised (msg e))))
+  (call-with-temp-file "%s-s.dat" (lambda (path out preserve) (let ((line (string-append me "-s" (number->string j)))) (write-string line out) (newline out) (flush-output out)
+     (equal? line (slurp path)))))))
+(define (make-dir j) (guard (e (#t (list 'raised (msg e))))
+  (call-with-temp-dir "%s-d" (lambda (path preserve) (let ((f (string-append path "/owner")))
+     (call-with-output-file f (lambda (out) (write-string me out) (newline out)))
+     (let lp ((i 0)) (if (< i 200) (lp (+ i 1))))
+     (equal? me (slurp f)))))))
+(c13-barrier)
+(define kept (map make-kept (iota %d)))
+(define scratch (map make-scratch (iota %d)))
+(define dirs (map make-dir (iota %d)))
+(define (bad l) (filter (lambda (x) (not (eq? x #t))) l))
+(define now (map (lambda (r) (if (eq? (car r) 'raised) r (equal? (cadr r) (car (cddr r))))) kept))
+(define later (map (lambda (r) (if (eq? (car r) 'raised) r (equal? (cadr r) (slurp (car r))))) kept))
+(c13-barrier)
+(for-each (lambda (r) (if (string? (car r)) (guard (e (#t #f)) (delete-file (car r))))) kept)
+(list 'files %d 'read-back-at-once (bad now) 'read-back-at-end (bad later) 'scratch-files (bad scratch) 'temp-dirs (bad dirs))"""
+            % (k, rng.randrange(10 ** 6), env["token"], env["token"], env["token"], m, ns, nd, m))
+
+
+LIBCALLS = [lc_time, lc_system, lc_fs, lc_errno_math_env, lc_tempfile]
+LIBCALL_BARRIERS = {"ns-temp-file": 2}
+
+
+def make_libcalls(rng, template, n, scale, env):
+    """n instances of one template with instance-specific arguments -> [(name, text)]"""
+    out = []
+    for k in range(n):
+        name, text = template(rng, k, scale, env)
+        out.append((name, PRELUDE + " " + " ".join(text.split("\n"))))
+    return out
